@@ -193,7 +193,7 @@ func run(raw json.RawMessage) (hx.Case, error) {
 	}
 	c := hx.Case{Obs: ob}
 	c.Coq = hx.App("mk_case", hx.N(in.Log2), hx.Z(int64(in.Lat)), hx.Z(int64(in.Max)), hx.B(in.Auto), hx.N(uint64(in.Cap)),
-		hx.L(pre), hx.L(script), hx.N(uint64(ob.Outcome)), hx.L(ticks), c26.CoqDTO(ob.Final))
+		hx.L(pre), hx.B(aliasOK(in.Log2, effectivePre(in))), hx.L(script), hx.N(uint64(ob.Outcome)), hx.L(ticks), c26.CoqDTO(ob.Final))
 	c.Known = classify(in)
 	concurrent := 0
 	for _, n := range keys {
@@ -202,7 +202,9 @@ func run(raw json.RawMessage) (hx.Case, error) {
 		}
 	}
 	if c.Known != "" {
-		c.Tags = append(c.Tags, "pre:non-uniform")
+		c.Tags = append(c.Tags, "pre:unclaimed-frame")
+	} else if len(in.Pre) > 0 && !isUniform(in) {
+		c.Tags = append(c.Tags, "pre:non-uniform-ok")
 	} else if len(in.Pre) > 0 {
 		c.Tags = append(c.Tags, "pre:uniform")
 	} else {
@@ -222,14 +224,66 @@ func run(raw json.RawMessage) (hx.Case, error) {
 	return c, nil
 }
 
-// classify names the known finding an input can exhibit: a pre-inserted page that is not a
-// frame of the MMU's page size (physical address unaligned, or another size).
-func classify(in input) string {
+// effectivePre is the table the pre-insertions build: a repeated (pid, vaddr) panics in Insert and is skipped.
+func effectivePre(in input) []c26.Page {
+	seen := map[[2]uint64]bool{}
+	var out []c26.Page
+	for _, p := range in.Pre {
+		k := [2]uint64{uint64(p.PID), p.VAddr}
+		if seen[k] {
+			continue
+		}
+		seen[k] = true
+		out = append(out, p)
+	}
+	return out
+}
+
+// aliasOK is the condition of theorem c27_no_alias_general (Coq: alias_okb) on the initial table:
+// every frame that meets the physical range of a page is the PAddr of some page.
+func aliasOK(log2 uint64, pages []c26.Page) bool {
+	sz := uint64(1) << log2
+	claimed := map[uint64]bool{}
+	for _, p := range pages {
+		claimed[p.PAddr] = true
+	}
+	for _, q := range pages {
+		e := q.PAddr + q.Size
+		if e == 0 {
+			continue
+		}
+		first, last := q.PAddr/sz, (e-1)/sz
+		if last < first {
+			continue
+		}
+		if last-first > 1<<16 {
+			return false
+		}
+		for k := first; k <= last; k++ {
+			if !claimed[k*sz] {
+				return false
+			}
+		}
+	}
+	return true
+}
+
+func isUniform(in input) bool {
 	sz := uint64(1) << in.Log2
 	for _, p := range in.Pre {
 		if p.PAddr%sz != 0 || p.Size != sz {
-			return "pre_inserted_page_not_a_frame"
+			return false
 		}
+	}
+	return true
+}
+
+// classify names the known finding an input can exhibit (F-C27-1): some frame meets the physical
+// range of a pre-inserted page and is not the PAddr of any pre-inserted page, so the equality
+// probe of allocatePhysicalPage can hand it out.
+func classify(in input) string {
+	if !aliasOK(in.Log2, effectivePre(in)) {
+		return "pre_inserted_page_not_a_frame"
 	}
 	return ""
 }
